@@ -429,6 +429,14 @@ class ShapesGraph(object):
                                         _found_child_bnodes.append(item)
                             elif isinstance(p_e, (rdflib.BNode, rdflib.URIRef)):
                                 _found_child_bnodes.append(p_e)
+                # The sibling shapes of a qualified value shape (sh:qualifiedValueShapesDisjoint): the
+                # qualified value shapes of the other property shapes of this shape's parents.
+                if SH_qualifiedValueShape in has_shape_expecting_p:
+                    for parent in g.subjects(SH_property, s):
+                        for sibling_property in g.objects(parent, SH_property):
+                            for sibling_qvs in g.objects(sibling_property, SH_qualifiedValueShape):
+                                if isinstance(sibling_qvs, (rdflib.BNode, rdflib.URIRef)):
+                                    _found_child_bnodes.append(sibling_qvs)
                 # The condition shapes of the shape's rules (SHACL-AF sh:rule / sh:condition, a shape or a
                 # list of shapes) are needed to apply those rules.
                 for rule_node in g.objects(s, SH_rule):
